@@ -452,3 +452,74 @@ pub fn sweep_case(ctx: &Ctx, t: &[&str]) -> String {
     }
     out
 }
+
+/// ELFNAME <es> <n> <shndx> <hex entries> <hex string table>
+/// Section names dereference the address stored in the string-table section header. The harness points that address
+/// (only when the header lies inside the tag) at a zero-padded 64 KiB buffer it owns, then resolves every name.
+pub fn elfname_case(ctx: &Ctx, t: &[&str]) -> String {
+    let es: u32 = t[1].parse().unwrap();
+    let n: u32 = t[2].parse().unwrap();
+    let shndx: u32 = t[3].parse().unwrap();
+    let entries = unhex(t[4]);
+    let strtab = unhex(t[5]);
+    let mut tag = Vec::new();
+    tag.extend_from_slice(&9u32.to_le_bytes());
+    tag.extend_from_slice(&((20 + entries.len()) as u32).to_le_bytes());
+    tag.extend_from_slice(&n.to_le_bytes());
+    tag.extend_from_slice(&es.to_le_bytes());
+    tag.extend_from_slice(&shndx.to_le_bytes());
+    tag.extend_from_slice(&entries);
+    while tag.len() % 8 != 0 {
+        tag.push(ctx.arena.poison);
+    }
+    let mut region = Vec::new();
+    region.extend_from_slice(&((8 + tag.len() + 8) as u32).to_le_bytes());
+    region.extend_from_slice(&0u32.to_le_bytes());
+    region.extend_from_slice(&tag);
+    region.extend_from_slice(&0u32.to_le_bytes());
+    region.extend_from_slice(&8u32.to_le_bytes());
+    // string table: zero padded
+    unsafe {
+        std::ptr::write_bytes(ctx.low, 0, 65536);
+        std::ptr::copy_nonoverlapping(strtab.as_ptr(), ctx.low, strtab.len().min(60000));
+    }
+    let hdr_off = 20u64 + shndx as u64 * es as u64;
+    if (es == 40 || es == 64) && hdr_off + es as u64 <= 20 + entries.len() as u64 {
+        let o = 8 + hdr_off as usize;
+        if es == 40 {
+            region[o + 12..o + 16].copy_from_slice(&(ctx.low as u32).to_le_bytes());
+        } else {
+            region[o + 16..o + 24].copy_from_slice(&(ctx.low as u64).to_le_bytes());
+        }
+    }
+    let p = ctx.arena.place_end(&region, 0);
+    let mut out = String::new();
+    match guarded(|| unsafe { BootInformation::load(p.cast()) }) {
+        Ok(Ok(bi)) => match guarded(|| bi.elf_sections_tag().map(|t| t.sections())) {
+            Err(()) => out.push('P'),
+            Ok(None) => out.push('-'),
+            Ok(Some(mut it)) => {
+                out.push('[');
+                loop {
+                    match guarded(|| it.next()) {
+                        Err(()) => {
+                            out.push_str("]!");
+                            break;
+                        }
+                        Ok(None) => {
+                            out.push_str("].");
+                            break;
+                        }
+                        Ok(Some(s)) => match guarded(|| s.name().map(|x| hex(x.as_bytes()))) {
+                            Err(()) => out.push_str("P|"),
+                            Ok(Ok(h)) => write!(out, "s:{}|", h).unwrap(),
+                            Ok(Err(_)) => out.push_str("e:Utf8|"),
+                        },
+                    }
+                }
+            }
+        },
+        _ => out.push_str("noload"),
+    }
+    out
+}
